@@ -157,3 +157,111 @@ func runC11(kind string, args []*Sexp) *Sexp {
 	}
 	return L(A("v1prog"), L(A("orig"), orig), L(A("v1"), got), L(A("same"), A(same)), fns)
 }
+
+// (case id v1mut <src hex>): structure-aware corruption of version 1 instruction streams:
+// the instructions of every function are truncated / have opcodes and operands replaced, the
+// Bytecode is re-encoded with consistent sizes and a version 1 header and decoded under recover.
+func runV1Mut(args []*Sexp) *Sexp {
+	src := atomBytes(args[0])
+	bc, err, pan := compileSrc(src, ugo.CompilerOptions{})
+	if pan != nil || err != nil {
+		return L(A("compile-error"))
+	}
+	var fns []*ugo.CompiledFunction
+	fns = append(fns, bc.Main)
+	for _, c := range bc.Constants {
+		if cf, ok := c.(*ugo.CompiledFunction); ok {
+			fns = append(fns, cf)
+		}
+	}
+	total, panics := 0, 0
+	bad := L(A("bad"))
+	sample := L(A("sample"))
+	try := func(target int, insts []byte, srcmap map[int]int) {
+		v1 := &ugo.Bytecode{FileSet: bc.FileSet, NumModules: bc.NumModules}
+		idx := 0
+		mk := func(cf *ugo.CompiledFunction) *ugo.CompiledFunction {
+			c := copyFn(cf)
+			if idx == target {
+				c.Instructions, c.SourceMap = insts, srcmap
+			} else if i1, m1, ok := narrowToV1(cf); ok {
+				c.Instructions, c.SourceMap = i1, m1
+			}
+			idx++
+			return c
+		}
+		v1.Main = mk(bc.Main)
+		for _, c := range bc.Constants {
+			if cf, ok := c.(*ugo.CompiledFunction); ok {
+				v1.Constants = append(v1.Constants, mk(cf))
+			} else {
+				v1.Constants = append(v1.Constants, c)
+			}
+		}
+		var buf bytes.Buffer
+		if err := encoder.EncodeBytecodeTo(v1, &buf); err != nil {
+			return
+		}
+		data := buf.Bytes()
+		data[4], data[5] = 0, 1
+		total++
+		class := "ok"
+		func() {
+			defer func() {
+				if r := recover(); r != nil {
+					class = "panic"
+				}
+			}()
+			if _, err := encoder.DecodeBytecodeFrom(bytes.NewReader(data), nil); err != nil {
+				class = "err"
+			}
+		}()
+		if class == "panic" {
+			panics++
+			if len(bad.List) < 6 {
+				bad.List = append(bad.List, A("x"+hex.EncodeToString(insts)))
+			}
+		}
+		if total%7 == 0 && len(sample.List) < 400 {
+			sample.List = append(sample.List, L(A("x"+hex.EncodeToString(insts)), srcMapSexp(srcmap), A(class)))
+		}
+	}
+	for t, cf := range fns {
+		i1, m1, ok := narrowToV1(cf)
+		if !ok || len(i1) == 0 {
+			continue
+		}
+		// truncations
+		for k := 1; k <= 4 && k < len(i1); k++ {
+			try(t, append([]byte(nil), i1[:len(i1)-k]...), m1)
+		}
+		// opcode replacement at every instruction start, operand replacement at jump-class ones
+		for i := 0; i < len(i1); {
+			op := i1[i]
+			if int(op) >= len(opv1.OpcodeOperands) {
+				break
+			}
+			w := 0
+			for _, x := range opv1.OpcodeOperands[op] {
+				w += x
+			}
+			for _, nop := range []byte{ugo.OpJump, ugo.OpJumpFalsy, ugo.OpAndJump, ugo.OpOrJump, ugo.OpSetupTry, ugo.OpConstant, ugo.OpCall, ugo.OpPop, ugo.OpClosure, ugo.OpLoadModule, 44, 45, 100, 255} {
+				if nop == op {
+					continue
+				}
+				m := append([]byte(nil), i1...)
+				m[i] = nop
+				try(t, m, m1)
+			}
+			if isJumpClass(op) && w >= 2 {
+				for _, v := range [][2]byte{{0, 0}, {0xff, 0xff}, {byte(len(i1) >> 8), byte(len(i1))}, {byte((len(i1) + 1) >> 8), byte(len(i1) + 1)}, {0, 1}} {
+					m := append([]byte(nil), i1...)
+					m[i+1], m[i+2] = v[0], v[1]
+					try(t, m, m1)
+				}
+			}
+			i += 1 + w
+		}
+	}
+	return L(A("v1mut"), A(fmt.Sprint(total)), A(fmt.Sprint(panics)), bad, sample)
+}
